@@ -237,12 +237,14 @@ func runHandshake(sc hsScen, dir string) (hsObs, []problem) {
 			os.Stderr.Write(buf[:runtime.Stack(buf, true)])
 		}
 		if sc.T == "sse" && sc.Step == "endpointStall" && sc.Close == "during" {
-			// start() waits for the endpoint event in a select over {endpoint, caller's context, 60 s}: Close() is none of them
+			// (repaired in /repo 3e0df05; reported again if it returns) start() waited for the endpoint event in a select over
+			// {endpoint, caller's context, 60 s}: Close() was none of them
 			probs = append(probs, problem{fp: "calls:sse:close_does_not_end_initialize_before_endpoint_event", what: "legacy SSE client: the event stream is up (headers received) and no endpoint event has come; Close() from another goroutine ends the stream and its reader, but Initialize keeps waiting (start() selects over the endpoint event, the caller's context and a 60 s timer only) until the caller's context ends",
 				observed: map[string]any{"waited_ms_after_close": (latencyCeiling + 200*time.Millisecond).Milliseconds()}})
 		} else if sc.T == "sse" && sc.Step == "getHold" && sc.Close == "after" {
-			// the stream request of the legacy SSE handshake is made with a context detached from the caller's: while the server
-			// has accepted GET /sse and sends no response headers, only Close() ends the Initialize
+			// (repaired in /repo 0002846; reported again if it returns) the stream request of the legacy SSE handshake was made with
+			// a context detached from the caller's: while the server has accepted GET /sse and sends no response headers, only
+			// Close() ended the Initialize
 			probs = append(probs, problem{fp: "calls:sse:initialize_ignores_context_before_stream_headers", what: "legacy SSE client: the server has accepted GET /sse and sends no response headers; the caller's deadline passes and Initialize does not return (start() sends the stream request with context.WithoutCancel(ctx) and looks at ctx only after the headers); Close() from another goroutine releases it",
 				observed: map[string]any{"deadline_ms": 300, "waited_ms_after_deadline": (latencyCeiling + 200*time.Millisecond).Milliseconds()}})
 		} else {
